@@ -593,6 +593,35 @@ func genC19(g *G) {
 		head := maxStart + 2*k + conf + int64(g.Intn(int(k)+3))
 		g.Emit("appboot", itoa64(k), itoa64(conf), itoa64(head), strings.Join(doms, ","))
 	}
+	// transient outages of the on-chain handler lookup while one relayer handles a sequence of ranges
+	for i := 0; i < g.Count(120, 2500); i++ {
+		rs := []string{}
+		for j := 0; j < 2+g.Intn(4); j++ {
+			ds := []string{}
+			for k := 0; k < 1+g.Intn(3); k++ {
+				ds = append(ds, itoa(2+g.Intn(2))+g.Pick([]string{"", "", "b"}))
+			}
+			rs = append(rs, g.Pick([]string{"n", "n", "o"})+":"+strings.Join(ds, ","))
+		}
+		g.Emit("evmoutage", itoa(1+g.Intn(3)), strings.Join(rs, "/"))
+	}
+	for _, sq := range []string{"o:2/n:2", "o:2,3b/n:2/n:3b", "n:2/o:2/n:2", "o:2b/o:2/n:2,2b"} {
+		g.Emit("evmoutage", "1", sq)
+	}
+	// batching that depends on accumulated gas: small per-proposal allowances against the cap, many proposals
+	for i := 0; i < g.Count(40, 800); i++ {
+		n := 3 + g.Intn(6)
+		xs := []string{}
+		for j := 0; j < n; j++ {
+			xs = append(xs, []string{"n", "0", "10", "20", "35"}[g.Intn(5)]+":"+g.Pick([]string{"p", "p", "p", "p", "e"}))
+		}
+		m := []string{"1-2-100-104", "3-1-5-9"}[g.Intn(2)]
+		g.Emit("evmsession", "100", "10", m, joinOr(xs, ";"))
+		g.Emit("evmsession2", "100", "10", m, joinOr(xs, ";"))
+		if i%3 == 0 {
+			g.Emit("evmsigsession", "100", "10", m, joinOr(xs, ";"))
+		}
+	}
 	// the session ids the EVM signing processes run under (several batches per delivery)
 	for _, sp := range []string{"n:p", "n:p;n:p", "n:p;n:p;n:p", "100:p;n:p", "n:e;n:p;41:p;n:p", "40:p;n:p;n:p;0:p;0:p", "n:e",
 		"n:x;n:p;n:p", "n:p;n:x;n:p", "n:p;n:p;n:x", "n:e;n:x", "n:x"} { // x: this relayer cannot read the proposal's status
